@@ -21,7 +21,7 @@ import (
 	"github.com/olareg/olareg/config"
 )
 
-const c15oRule = "TestC15Overlap: mem and dir store; an upload session with 0-2 chunks already accepted; a PATCH, a completing PUT with body, or a PUT with the whole content (POST then PUT) whose body of 1-70000 bytes is delivered up to a drawn " +
+const c15oRule = "TestC15Overlap: mem and dir store; an upload session with 0-2 chunks already accepted; a PATCH, a completing PUT with body, or a monolithic POST (evicted only) whose body of 1-70000 bytes is delivered up to a drawn " +
 	"position (0, inside, at the end before EOF), then another client cancels the session (DELETE) or opens RepoUploadMax more sessions (eviction, awaited), then the rest of the body; oracle = no panic, no 5xx, a 4xx body is an OCI error " +
 	"document whose code is BLOB_UPLOAD_UNKNOWN (the session is gone) - a 2xx is accepted when every byte had been written before the session went; afterwards the session is unknown (status query 4xx BLOB_UPLOAD_UNKNOWN) unless the PUT completed it; " +
 	"non-trivial = the interruption came after at least one byte of the body and before the last; distinct = hash of the parameters"
@@ -34,24 +34,32 @@ func c15oProperty(t *rapid.T, st *Stats, owner string) {
 	rn := "r"
 	content := bigBlob(rapid.SampledFrom([]int{1, 10, 300, 40000, 70000}).Draw(t, "size"), 7)
 	pre := rapid.IntRange(0, 2).Draw(t, "chunksBefore")
-	method := rapid.SampledFrom([]string{"PATCH", "PATCH", "PUT"}).Draw(t, "method")
+	method := rapid.SampledFrom([]string{"PATCH", "PATCH", "PUT", "POST"}).Draw(t, "method")
 	hows := []string{"cancel", "cancel", "evict"}
 	if owner == "C08" {
 		hows = append(hows, "patch", "patch") // another chunk of the same session lands in the gap (a retry overlapping the request it retries)
 	}
 	how := rapid.SampledFrom(hows).Draw(t, "how")
+	if method == "POST" {
+		// a monolithic upload: its session is never handed out, only the repository can take it away (eviction)
+		how, pre = "evict", 0
+	}
 	at := rapid.SampledFrom([]int{0, 1, len(content) / 2, len(content) - 1, len(content)}).Draw(t, "at")
 	if at < 0 {
 		at = 0
 	}
 	trace := []string{fmt.Sprintf("store dir=%v uploadMax=%d; %d chunk(s) accepted before; %s of %d bytes interrupted after %d by %s", dirStore, max, pre, method, len(content), at, how)}
 	e.trace = trace
-	r := e.do("POST", "/v2/"+rn+"/blobs/uploads/", nil, nil)
-	if r.code != 202 {
-		e.abandon("session refused")
-		return
+	var r resp
+	loc := "/v2/" + rn + "/blobs/uploads/"
+	if method != "POST" {
+		r = e.do("POST", "/v2/"+rn+"/blobs/uploads/", nil, nil)
+		if r.code != 202 {
+			e.abandon("session refused")
+			return
+		}
+		loc = r.hdr.Get("Location")
 	}
-	loc := r.hdr.Get("Location")
 	off := 0
 	all := []byte{}
 	for i := 0; i < pre; i++ {
@@ -98,6 +106,11 @@ func c15oProperty(t *rapid.T, st *Stats, owner string) {
 	}
 	u := loc
 	putDig := ""
+	if method == "POST" {
+		putDig = dig("sha256", all)
+		u = loc + "?digest=" + putDig
+		o = &reqOpt{hdr: map[string]string{}, midAt: o.midAt, midBody: o.midBody}
+	}
 	if method == "PUT" {
 		sep := "?"
 		for _, c := range loc {
